@@ -569,7 +569,7 @@ def precomp_stream(ctx):
     kvs = (bspline.make_knots(2, 0.0, 1.0, 2), bspline.make_knots(1, 0.0, 1.0, 2))
     geo = geometry.unit_square()
     f = bspline.BSplineFunc(kvs, np.ones((4, 3)))
-    req, exp, alt, stale_par = [], [], [], []
+    req, exp, stale_par = [], [], []
     for expr in PRECOMP_FORMS + PRECOMP_PARAM_FORMS:
         for upd in ([], ['f'], ['geo'], ['f', 'geo']):
             args = {'geo': geo, 'f': f, 'c': 1.5}
@@ -589,13 +589,10 @@ def precomp_stream(ctx):
             ispar = [int(isinstance(v, vform.AsmVar) and isinstance(v.src, vform.Parameter)) for v in lin]
             basis = [int(v.scope == vform.Scope.BASISFUN) for v in lin]
             got = plist(num[id(v)] for v in vf.precomp)
-            # the rule with "updatable" = updatable input fields AND parameters (what update()/update_params() can change);
-            # the code as it is may still use the narrower reading (fields only): accepted only together with the finding below
+            # the rule as coded since /repo dde8508: "updatable" = updatable input fields AND parameters
+            # (everything update()/update_params() can rewrite)
             updp = [int(a or b) for a, b in zip(isupd, ispar)]
             req.append('precomp 1 %d %s %s %s %s' % (len(lin), plist(range(len(lin))), plist(deps, plist), plist(updp), plist(basis)))
-            exp.append(got)
-            alt.append(len(req))
-            req.append('precomp 1 %d %s %s %s %s' % (len(lin), plist(range(len(lin))), plist(deps, plist), plist(isupd), plist(basis)))
             exp.append(got)
             # model-free: no precomputed variable may (transitively) depend on an updatable-sourced variable
             def reach(k, seen):
@@ -666,13 +663,6 @@ def precomp_stream(ctx):
                 exp.append(plist(got_rng))
                 ctx.count('genupdate requests')
     got = ctx.model('drv_c08', req)
-    # pairs (k-1, k) = (rule incl. parameters, rule with updatable fields only): the implementation must equal the first,
-    # or the second if (and only if) the open finding update-params-derived-constants was reported
-    for k in alt:
-        if exp[k - 1] == got[k - 1]:
-            got[k] = exp[k]                      # wide rule holds: the narrow variant is irrelevant
-        elif exp[k] == got[k] and stale_par:
-            got[k - 1] = exp[k - 1]              # narrow rule + finding reported
     nd = sum(1 for e, g in zip(exp, got) if e != g)
     for r, e, g in zip(req, exp, got):
         if e != g and r.startswith('updslots'):
@@ -722,7 +712,7 @@ def run(ctx):
                     'real thread interleavings, OpenMP scheduling and the memory model are not modelled: the theorem is about the bookkeeping (disjoint write-sets); 6 thread counts are run in fresh processes']
     ctx.assumptions += ['entries asm.entry(i,j) / blocks asm.multi_blocks([(i,j)]) are the oracle of this property (their value is C01)',
                         'symmetric=True is exercised only for symmetric forms on square matrices; non-square component blocks + symmetric=True must raise on the BSR path, the generic path is outside the property (not run: out-of-bounds writes)',
-                        'update_equiv: the independence hypothesis (no precomputed variable depends on the updated field) is established by the repaired dependency_analysis rule (/repo 5ff56ef; theorem update_equiv_repaired); the rule itself is tied by the `precomp` stream and the former failing forms are re-run (fixed finding update-stale-precomputed)']
+                        'update_equiv: the independence hypothesis (no precomputed variable depends on the updated field or parameter) is established by the repaired dependency_analysis rule (/repo 5ff56ef, dde8508; theorem update_equiv_repaired); the rule itself is tied by the `precomp` stream and the former failing forms are re-run (fixed finding update-stale-precomputed)']
     ctx.rule = ('9 assembler instances per seed (scalar 1D/2D/3D, two-space rectangular, 2x2 and 2x1 component forms; random degrees/knots/geometry as in C01) x symmetric x '
                 '{csr,csc,coo,bsr,mlb} x {blocked,packed}: exact comparison with the Lean model fed with asm.entry; random entry subsets (sizes 0..40, outside the pattern, iterator input), '
                 'row subsets, 6 random bounding boxes x 10 entries (on-demand assembler; Lean model with bbox offsets), update sequences of length 2-4 + update_params, reuse; '
